@@ -16,7 +16,7 @@ import (
 
 func init() { registry["C05"] = checkC05 }
 
-const scAllKinds = `{"local","local2","use","assign","assign2","do","while","if","repeat","fornum","forin","lfunc","lefunc","gfunc","meth","file"}`
+const scAllKinds = `{"local","local2","use","assign","assign2","do","while","if","repeat","fornum","forin","lfunc","lefunc","gfunc","meth","cfunc","file"}`
 
 // scAvoid is the Avoid constant of Scope.tla for the current check (set by the family before scopeRuns).
 var scAvoid = "{}"
